@@ -140,13 +140,15 @@ def _generate_anchors(
 ) -> Dict[int, str]:
     fs_id_to_anchor = {}
     disambiguation_by_prefix = defaultdict(lambda: 0)
+    # FeatureStructure.__eq__ compares the slot names only, so membership has to be decided by identity
+    indexed_ids = {id(fs) for fs in indexed_feature_structures}
     for t in types_sorted:
         type_ = cas.typesystem.get_type(t)
         feature_structures = all_feature_structures_by_type[type_.name]
         feature_structures.sort(key=cmp_to_key(lambda a, b: _compare_fs(type_, a, b)))
 
         for fs in feature_structures:
-            add_index_mark = mark_indexed and fs in indexed_feature_structures
+            add_index_mark = mark_indexed and id(fs) in indexed_ids
             anchor = _generate_anchor(fs, add_index_mark)
             disambiguation_id = disambiguation_by_prefix.get(anchor)
             disambiguation_by_prefix[anchor] += 1
